@@ -71,6 +71,10 @@ def seed_table() -> str:
         verdict = ", ".join(sorted(set(det))) or "**missed**"
         if miss and det:
             verdict += f" (not by {', '.join(sorted(set(miss) - set(det)))})" if set(miss) - set(det) else ""
+        if res.get("superseded"):
+            verdict += " (superseded at HEAD: the code it edits was rewritten by a later repair)"
+        elif res.get("patch_applies_to_head") is False:
+            verdict += " (verdict from the tree it was written for; the patch no longer applies to HEAD)"
         rows.append(f"| {name} | {meta.get('property')} | {esc(summ)} — *needs:* {esc(needs)} | "
                     f"{'yes' if res.get('confirmed') else 'no' if res.get('confirmed') is False else '?'} | {verdict} |")
     return "\n".join(rows)
